@@ -10,6 +10,8 @@ ASSUMPTIONS = ['embedding follows spec 5.1/5.2 basic cases: every later non-empt
                'indented by the marker width; bare ">" only on lines not starting with a space',
                'parsed with the HtmlRenderer token set; both sides of the law come from the implementation']
 L = spaces.LINES
+# one line deeper over the lines that switch parser state on and off (quotes, setext underlines, list items, fences)
+LDEEP = ['> q', '', 'foo', '===', '---', '- a', '```', '  b']
 BOUNDS = {'quick': 3, 'thorough': 4}
 MARKERS = {'quick': [('-', 1), ('-', 3), ('1.', 1), ('1.', 3), ('*', 2), ('7)', 4)],
            'thorough': [(m, p) for m in ('-', '+', '*', '1.', '7)', '123.') for p in (1, 2, 3, 4)]}
@@ -30,6 +32,7 @@ def jobs(tier):
         ns = 1 if n < 3 else (16 if n == 3 else 128)
         extra += [('trees', n, 2 if tier == 'quick' else 3, tier, sh, ns) for sh in range(ns)]
     extra += [j + (tier,) for j in leafspell.jobs() + inlinespell.jobs()]
+    extra += [('deep', i, tier) for i in range(len(LDEEP))]
     if tier == 'quick':
         return [(i, None, k, tier) for i in range(len(L))] + extra
     return [(i, j, k, tier) for i in range(len(L)) for j in range(len(L))] + [(i, None, 1, tier) for i in range(len(L))] + extra
@@ -105,7 +108,7 @@ def check_embedding(lines, kind, how, emb, base):
             alt = ast_of('\n'.join(lines) + '\n', setext=False)
         except Exception:
             alt = None
-        if alt is not None and alt != base and inner == alt[0] and fn == alt[1]:
+        if alt is not None and alt != base and inner == alt[0] and fn == alt[1] and setext_before_first_quote(base[0]):
             f['kf'] = 'KF-C04-setext-in-quote'
     if kind == 'list' and inner is not None and any(l and not l.strip() for l in lines):
         blanked = [l if l.strip() else '' for l in lines]
@@ -116,6 +119,26 @@ def check_embedding(lines, kind, how, emb, base):
         if alt is not None and inner == alt[0] and fn == alt[1]:
             f['kf'] = 'KF-C04-whitespace-only-line-in-list-item'
     return f
+
+
+def setext_before_first_quote(children):
+    """static class predicate of KF-C04-setext-in-quote, read off the parse of the plain text T: T holds a setext heading that
+    comes, in document order, before the end of T's first block quote (list items are searched, quotes are not entered). Only
+    such headings are lost when T is quoted: the reader of every quote switches recognition back on when it is done. (The
+    defect model alone is computed with the code under test and would follow a change of that switch.)"""
+    def walk(nodes):
+        for n in nodes:
+            t = n.get('type')
+            if t == 'SetextHeading':
+                return True
+            if t == 'Quote':
+                return False
+            if t in ('List', 'ListItem'):
+                r = walk(n.get('children') or [])
+                if r is not None:
+                    return r
+        return None
+    return walk(children) is True
 
 
 def nested_variants(lines, tier):
@@ -219,6 +242,15 @@ def run_job(job):
                     continue
                 run_text(r, md[:-1].split('\n'), job[3])
         r.sample(dict(space=job[0], family=job[1]), 1)
+        return r
+    if job[0] == 'deep':
+        k = BOUNDS[job[2]] + 1
+        for rest in itertools.product(LDEEP, repeat=k - 1):
+            lines = [LDEEP[job[1]]] + list(rest)
+            if lines[-1].strip() == '' or lines[0].strip() == '':
+                continue
+            run_text(r, lines, job[2])
+        r.sample(dict(space='deep sub-alphabet', lines=LDEEP, length=k), 1)
         return r
     if job[0] == 'trees':
         _, n, depth, tier, sh, ns = job
